@@ -221,7 +221,7 @@ print("RUNS", runs, "BAD", bad)
     nrand = 12 if chk.tier == "quick" else 400
     try:
         p = subprocess.run(["/venv/bin/python", "-c", code, str(chk.seed), str(nrand)], capture_output=True, text=True,
-                           timeout=3000, env=dict(os.environ, PYTHONPATH="/repo"))
+                           timeout=3000, env=dict(os.environ, PYTHONPATH=os.environ.get("FLOWDYN_REPO", "/repo")))
         out = p.stdout.strip().splitlines()
         last = out[-1] if out else ""
         runs = int(last.split()[1]) if last.startswith("RUNS") else 0
